@@ -24,6 +24,7 @@ class Table:
     def __init__(self):
         self.t = {0: ['std', True, False], 1: ['std', True, False], 2: ['std', True, False], 3: ['preopen', True, False], 4: ['preopen', True, False]}
         self.paths = {}
+        self.fresh = True          # no operation yet
         self.failed_open = False      # a path_open that failed after path resolution happened (it must leave no trace in the table)
 
     def live(self, x):
@@ -47,8 +48,14 @@ class Table:
 
     def step(self, op, errno, det, preopen_path):
         """apply one observed step; returns list of (call, xclass, outcome, text) the model rejects"""
+        self.fresh = False
         bad, f = [], op.split(',')
         d = dict(kv.split('=', 1) for kv in det.split() if '=' in kv)
+        if f[0] == 'hc':
+            # the host started the process without this standard stream.  What the number then denotes is the embedder's business (whatever
+            # it opens first lands on that native descriptor): nothing is demanded of calls on it; the OTHER numbers must mean what they always mean
+            self.t[int(f[1])][1] = 'limbo'
+            return bad
         if f[0] == 'om':
             self.failed_open = True
             if errno == 0:
@@ -108,6 +115,8 @@ class Table:
         issued = sorted(n for n in self.t if n > 4)
         xs = [0, 1, 2, 3, 4] + issued + [max(self.t) + 1, 1000, 0xFFFFFFFF]
         ops = []
+        if self.fresh:
+            ops += ['hc,0', 'hc,1']          # only as the first operation of a history
         for ns in (0, 1):
             ops += ['of,%d' % ns, 'od,%d' % ns]
             if not self.failed_open:
@@ -116,7 +125,7 @@ class Table:
             ops += ['cf,%d,%d' % (x, ns) for x in issued + [max(self.t) + 1]]      # fd_close while the host's close() fails
             for c in uses:
                 for x in xs:
-                    if c == 'fd_readdir' and x in (0, 1, 2) and self.live(x):
+                    if c == 'fd_readdir' and x in (0, 1, 2) and (self.live(x) or self.limbo(x)):
                         continue    # design guard: live standard streams are not used as directory handles
                     ops.append('u,%s,%d,%d' % (c, x, ns))
         return ops
@@ -126,7 +135,8 @@ def describe(line):
     out = []
     for op in line.split():
         f = op.split(',')
-        if f[0] == 'om': out.append('%s.path_open(3,"zz" (missing),0)' % NSNAME[int(f[1])])
+        if f[0] == 'hc': out.append('[host started without its standard stream %s]' % f[1])
+        elif f[0] == 'om': out.append('%s.path_open(3,"zz" (missing),0)' % NSNAME[int(f[1])])
         elif f[0] == 'of': out.append('%s.path_open(3,"f",CREAT,RW)' % NSNAME[int(f[1])])
         elif f[0] == 'od': out.append('%s.path_open(3,"sub",DIRECTORY)' % NSNAME[int(f[1])])
         elif f[0] == 'c': out.append('%s.fd_close(%s)' % (NSNAME[int(f[2])], f[1]))
@@ -143,6 +153,10 @@ def judge(ex, line, r, report=True):
     """run the model over an executed history; returns the model after the last step, or None if the history is not to be extended"""
     tbl = Table()
     pre = [i for i in r['info'] if i.startswith('preopen=')]
+    if (not pre or not pre[0].startswith('preopen=3 ')) and line.startswith('hc,') and pre and report:
+        ex.report('numbering|pre-open-shifted', line, r, 'with a standard stream missing on the host the first pre-opened directory became descriptor %s, not 3 (the numbers 0-2 stand for the host streams whether they are open or not) — history: %s' % (
+            pre[0].split()[0].split('=')[1], describe(line)), describe)
+        return None
     if not pre or not pre[0].startswith('preopen=3 '):
         print('MACHINERY-ERROR: pre-open was not registered as descriptor 3: %r %r' % (pre, r['san'][:5])); sys.exit(2)
     path = pre[0].split('path=', 1)[1]
